@@ -6,5 +6,5 @@ INVARIANT BlanksAtEnds
 INVARIANT FlagsRight
 INVARIANT MatchLaws
 INVARIANT TableLaws
+INVARIANT AppendLaw
 INVARIANT Export
-PROPERTY AppendLaw
